@@ -144,7 +144,14 @@ class LogicDense(torch.nn.Module):
         return {"indices": tuple(i.detach().cpu() for i in self.indices)}
 
     def set_extra_state(self, state):
-        self.indices = tuple(i.to(torch.int64).to(self.device) for i in state["indices"])
+        indices = tuple(i.to(torch.int64).to(self.device) for i in state["indices"])
+        # the wiring must fit THIS layer: one pair per neuron, every wire an existing input
+        if len(indices) != 2 or any(
+            i.shape != (self.out_dim,) or (i.numel() > 0 and (int(i.min()) < 0 or int(i.max()) >= self.in_dim))
+            for i in indices
+        ):
+            raise ValueError("the persisted wiring does not fit this layer (in_dim or out_dim differ)")
+        self.indices = indices
         if self.implementation == "cuda":
             self._init_cuda_indices()
 
